@@ -4,7 +4,7 @@ import Std.Data.HashMap
 /-!
 # Driver of the `disasm` stream (C16)
 
-Request  `D <x86_64|i386> <failAfterLines | -> <hex of the file content>`
+Request  `D <x86_64|i386> <failAfterLines | open | -> <hex of the file content>`
 Reply    `OK n (num hexname hexcaller hexfunction hexlocation hexassembly)*` | `ERR` | `PANIC`
 
 The tables `SyscallNumbers` are the regenerated `Gen.syscallsX86_64` / `Gen.syscalls386`, each put
@@ -58,7 +58,10 @@ def handle (toks : List String) : String :=
       if arch = "x86_64" then some (x86_64Parser, tblX86_64)
       else if arch = "i386" then some (i386Parser, tbl386)
       else none
-    let fl : Option (Option Nat) := if fail = "-" then some none else fail.toNat?.map some
+    let fl : Option (Option Nat) :=
+      if fail = "-" then some none
+      else if fail = "open" then some (some 0)      -- the path cannot be opened: nothing is read
+      else fail.toNat?.map some
     match cfg, fl, unhex hex with
     | some (p, t), some f, some content => render (parse p (fun n => t.get? n) content f)
     | _, _, _ => "BAD-REQUEST"
